@@ -1,6 +1,6 @@
 """C17 - geometry exports encode exactly the object's coordinates (point selection, duplicate handling, number formatting)."""
 from cv import Pipeline, Unit
-import cx
+import cx, re
 
 PROPERTY = 'C17'
 LEVEL = 'proof'
@@ -74,18 +74,41 @@ for name, which in (('fill_linestring_unique', 'linestring'), ('fill_polygon_uni
 
 # ---- add_points: the points of one ring of a multipolygon ---------------------------------------------------------------------
 def fac_prelude(repo):
-    return 'size_t ghost_n;\n' + geo_prelude(repo) + cx.members_struct(repo, [(FAC, 'GeometryFactory')], 'GeometryFactory', typemap={'TProjection': 'int', 'TGeomImpl': 'int', 'osmium::Location': 'Location'})
+    last, first = ap_state_names(repo)
+    names = '#define AP_LAST %s\n#define AP_FIRST %s\n' % tuple(('self->' + n) if n.startswith('m_') else n for n in (last, first))
+    return 'size_t ghost_n;\n' + names + geo_prelude(repo) + cx.members_struct(repo, [(FAC, 'GeometryFactory')], 'GeometryFactory', typemap={'TProjection': 'int', 'TGeomImpl': 'int', 'osmium::Location': 'Location'})
 
 
-U_addpts = Unit(FAC, 'add_points', cls='GeometryFactory', params=['const NodeRef* it', 'const NodeRef* end'],
-                pre=[(r'osmium::Location last_location;', 'Location last_location = VERIF_UNDEF_LOCATION;'),
-                     (r'for \(const osmium::NodeRef& node_ref : nodes\)', 'for (; it != end; ++it)'),
-                     (r'last_location != node_ref\.location\(\)', '!LOC_EQ(last_location, it->m_location)'),
-                     (r'last_location = node_ref\.location\(\);', 'last_location = it->m_location;'),
-                     (r'm_impl\.multipolygon_add_location\(m_projection\(last_location\)\);',
-                      'verif_project_and_add(last_location); if ((size_t)(it - ghost_begin) == ghost_g) ghost_emitted_g = 1; /*ghost*/')])
+def ap_state_names(repo):
+    """the duplicate-suppression state of add_points: locals of the function (as in the repository), or - a structural variant that must still be decided,
+    not reported as 'spec out of date' - data members of the factory. Returns (last, first) as they appear in the source."""
+    src = cx.preprocess(cx.strip_comments(open(repo + '/' + FAC).read()))
+    m = re.search(r'void add_points\(const osmium::NodeRefList& nodes\) \{(.*?)\n            \}', src, re.S)
+    if not m:
+        raise cx.ExtractError('add_points not found')
+    body = m.group(1)
+    last = 'last_location' if re.search(r'osmium::Location last_location;', body) else ('m_last_location' if 'm_last_location' in body else None)
+    first = 'first' if re.search(r'bool first = true;', body) else ('m_first' if 'm_first' in body else None)
+    if last is None or first is None:
+        raise cx.ExtractError('add_points: the variables holding the previous location / the first-point flag were not recognised')
+    return last, first
+
+
+def ap_rewrite(body, R):
+    last = 'm_last_location' if not re.search(r'osmium::Location last_location;', body) else 'last_location'
+    rules = [(r'for \(const osmium::NodeRef& node_ref : nodes\)', 'for (; it != end; ++it)'),
+             (last + r' != node_ref\.location\(\)', '!LOC_EQ(%s, it->m_location)' % last),
+             (last + r' = node_ref\.location\(\);', '%s = it->m_location;' % last),
+             (r'm_impl\.multipolygon_add_location\(m_projection\(%s\)\);' % last,
+              'verif_project_and_add(%s); if ((size_t)(it - ghost_begin) == ghost_g) ghost_emitted_g = 1; /*ghost*/' % last)]
+    if last == 'last_location':
+        rules.insert(0, (r'osmium::Location last_location;', 'Location last_location = VERIF_UNDEF_LOCATION;'))
+    return cx.apply_mustfire(body, rules, R, 'add_points')
+
+
+U_addpts = Unit(FAC, 'add_points', cls='GeometryFactory', params=['const NodeRef* it', 'const NodeRef* end'], pre=[ap_rewrite])
 AP_CONTRACT = [(l, k, t.replace('verif_exc == 0 && ghost_n <= 5000', 'verif_exc == 0 && __CPROVER_is_fresh(self, sizeof(*self)) && ghost_n <= 5000')) for (l, k, t) in UNIQ_CONTRACT if 'returned count' not in l]
-AP_LOOP = [[c.replace('num_points == ghost_emit_count && ', 'first == (%s == 0) && ' % IDX).replace('__CPROVER_assigns(it, num_points, ', '__CPROVER_assigns(it, first, ') for c in UNIQ_LOOP[0]]]
+AP_LOOP = [[re.sub(r'\blast_location\b', 'AP_LAST', c.replace('num_points == ghost_emit_count && ', 'AP_FIRST == (%s == 0) && ' % IDX).replace('__CPROVER_assigns(it, num_points, ', '__CPROVER_assigns(it, AP_FIRST, ')) for c in UNIQ_LOOP[0]]]
 PIPELINES.append(Pipeline('U2_add_points', units=[U_addpts], prelude=fac_prelude, contracts={'GeometryFactory_add_points': AP_CONTRACT}, loops={'GeometryFactory_add_points': AP_LOOP},
                           replace=['verif_project_and_add'], maythrow={'verif_project_and_add': True}, enforce='GeometryFactory_add_points',
                           harness='void harness(void) { struct GeometryFactory* f; const NodeRef *a, *b; GeometryFactory_add_points(f, a, b); __CPROVER_assert(verif_exc != 0, "canary:normal"); __CPROVER_assert(verif_exc == 0, "canary:throw"); }',
